@@ -462,9 +462,8 @@ def nesting_case(depth, split, cid="nesting"):
 
 
 def coverage_case2(cid="coverage2"):
-    """constructs on which one backend of the unchanged tree does not compile (C++ skeleton for
-    an `out` struct whose object sits in a nested struct, K11-cppNestedObjStructOut): exercised
-    through the C and Rust backends only"""
+    """structs whose objects sit only in nested structs, in both directions (the C++ skeleton
+    did not compile for the `out` direction before fix 373fee2; all three backends now)"""
     def P(d, t, n, arr=None):
         return {"dir": d, "type": t, "arr": arr, "name": n}
 
@@ -486,7 +485,7 @@ def coverage_case2(cid="coverage2"):
             M("witnessed", [P("in", "HR32", "box"), P("in", "IPeer", "witness")]),
         ]},
     ]
-    return {"id": cid, "files": [{"path": "main.idl", "nodes": nodes}], "main": "main.idl", "incdirs": [], "langs": ["c", "rust"]}
+    return {"id": cid, "files": [{"path": "main.idl", "nodes": nodes}], "main": "main.idl", "incdirs": []}
 
 
 def name_main_after_iface(case, rng, which=None):
